@@ -45,6 +45,40 @@ def operation_values(P):
     return vals
 
 
+UTIME_OMIT = (1 << 30) - 2
+
+
+def atime_kept_rule(P, rep, rid):
+    """touch `changes only the sub-second part of time-stamps that were zero`, fix restores the recorded modification time: neither has
+    any business with the ACCESS time.  fmtime() / lmtime() hand two time-stamps to futimens() / utimensat(): entry 0 is the access
+    time, entry 1 the modification time.  Entry 0 must ask the kernel to leave the access time alone (tv_nsec = UTIME_OMIT);
+    a copy of the new modification time there moves the access time -- seconds included -- of every file touch or fix handles."""
+    rep.rule(rid, 'fmtime / lmtime: the access-time entry handed to futimens / utimensat is UTIME_OMIT (only the modification time is set)', 2)
+    n = 0
+    for fn, prim, argi in (('fmtime', 'futimens', 1), ('lmtime', 'utimensat', 2)):
+        f = P.fn(fn)
+        rep.analysed(f)
+        cs = list(f.calls(prim))
+        if not cs:
+            raise AnalysisBroken('%s: %s call not found (another time-stamp primitive is configured)' % (fn, prim))
+        tv = f.strip(cs[0].ops[argi])
+        ti = f.inst_of(cs[0].ops[argi])
+        while ti is not None and ti.op in ('getelementptr', 'bitcast'):
+            nxt = f.inst_of(ti.ops[0])
+            if nxt is None:
+                break
+            ti = nxt
+        if ti is None or ti.op != 'alloca':
+            raise AnalysisBroken('%s: the time-stamp array handed to %s is not a local' % (fn, prim))
+        name = ti.var or 'tv'
+        st0 = [i for i in f.all_insts() if i.op == 'store' and f.expr(i.ops[1]).replace(' ', '') in ('&%s[0].tv_nsec' % name,)]
+        n += 1
+        ok = bool(st0) and all(f.const_of(i.ops[0]) == UTIME_OMIT for i in st0)
+        rep.check(ok, rid, '%s: %s[0] (access time) is UTIME_OMIT' % (fn, name), cs[0].loc(),
+                  '%d store(s), all UTIME_OMIT' % len(st0) if ok else 'the access-time entry is filled with %s: %s moves the access time of the file to the new modification time (years back for an old file) although only the sub-second part of the modification time was to change' % (sorted({f.xexpr(i.ops[0])[:40] for i in st0}) or 'nothing recognisable', prim),
+                  function=fn, construct='access time overwritten')
+
+
 def run(ctx, rep):
     P = ctx.prog
     rep.explanation = ('Effect analysis over the resolved call graph: every write-capable libc call site is classified by a frozen table of effect primitives; '
@@ -131,6 +165,7 @@ def run(ctx, rep):
     chsize_full_size_rule(P, rep, 'R-C12-9')
     nofollow_rule(P, rep, 'R-C12-3n')
     touch_disk_nsec_rule(P, rep, 'R-C12-5d')
+    atime_kept_rule(P, rep, 'R-C12-5a')
     rep.extra['effects_per_command'] = summary
     rep.extra['write_sites'] = len(sites)
 
